@@ -132,6 +132,9 @@ class Tr:
         if isinstance(n, ast.BoolOp):
             op = {ast.And: ' && ', ast.Or: ' || '}[type(n.op)]
             return op.join(paren(self.pure(v, env)) for v in n.values), False
+        if isinstance(n, ast.UnaryOp) and isinstance(n.op, ast.Not) and isinstance(n.operand, ast.Name) \
+                and env.get(n.operand.id) in self.sig.get('falsy', {}):
+            return self.sig['falsy'][env[n.operand.id]].format(n.operand.id), False
         if isinstance(n, ast.UnaryOp) and isinstance(n.op, ast.Not):
             return 'negb %s' % paren(self.pure(n.operand, env)), False
         if isinstance(n, ast.Compare) and len(n.ops) == 1:
@@ -319,6 +322,12 @@ def translate(sigpath, repo):
     cls = [n for n in tree.body if isinstance(n, ast.ClassDef) and n.name == sig['class']]
     if len(cls) != 1:
         raise Unsupported(None, 'class %s not found once' % sig['class'])
+    for mod, name in sig.get('imports', []):     # names the patterns use must be the imported ones
+        ok = [n for n in tree.body if isinstance(n, ast.ImportFrom) and n.module == mod and n.level == 0
+              and any(a.name == name and a.asname is None for a in n.names)]
+        rebound = [n for n in tree.body if isinstance(n, (ast.FunctionDef, ast.ClassDef)) and n.name == name]
+        if len(ok) != 1 or rebound:
+            raise Unsupported(None, 'module-level name %s is not `from %s import %s`' % (name, mod, name))
     ms = {}
     for n in cls[0].body:
         if isinstance(n, ast.FunctionDef):
